@@ -360,6 +360,17 @@ def check_scoped(case):
     return {"evaluations": 5, "nontrivial": ["list", "iter", "seq"] if len(case["items"]) >= 2 else [], "labels": {}}
 
 
+def check_late_mutation(case):
+    from ..native import run_late_mutation
+
+    late, early = run_late_mutation(case)
+    if late != early:
+        raise Violation(f"C03/{case['tool'].split('-')[0]}/source-touched-before-the-first-request",
+                        f"{case['tool']} over {case['kinds']} data={case['data']}: container changed after creating the "
+                        f"iterator -> {late}; changed before -> {early}")
+    return None
+
+
 def shards(tier):
     out = [
         Shard(name, check, strategy=cases(name, tier), n=250, nontrivial=lambda c: False,
@@ -368,6 +379,11 @@ def shards(tier):
     ]
     from . import c08
 
+    from ..native import late_mutation_cases, TOOLS_N, AGGREGATIONS
+
+    lazy_tools = [t for t in TOOLS_N if t not in AGGREGATIONS and t != "chain_from_iterable"]
+    out.append(Shard("late-mutation", check_late_mutation, strategy=late_mutation_cases(lazy_tools), n=800,
+                     nontrivial=lambda c: len(c["data"][0]) >= 1, thorough_mult=15))
     out.append(Shard("scoped_iter-flavours", check_scoped, strategy=c08.programs(tier), n=400,
                      nontrivial=lambda c: False, thorough_mult=20))
     out.append(Shard("exitstack-flavours", check_stack, strategy=stack_cases(), n=400,
